@@ -220,8 +220,9 @@ def main():
     }
     if rep.exhaustive is not None:
         cov['exhaustive'] = rep.exhaustive
-    C.write_evidence(pid, a.tier, seed, cov, list(getattr(mod, 'ASSUMPTIONS', [])), time.time() - t0,
-                     len(new) + (1 if (broken and not new) else 0))
+    if not a.no_lean:       # development runs without the Lean part never write evidence
+        C.write_evidence(pid, a.tier, seed, cov, list(getattr(mod, 'ASSUMPTIONS', [])), time.time() - t0,
+                         len(new) + (1 if (broken and not new) else 0))
     log('done, exit %d' % status)
     return status
 
